@@ -129,11 +129,40 @@ func (in *Interp) globalCell(g *ssa.Global) *Value {
 			return c
 		}
 	}
-	v := in.zero(g.Type().(*types.Pointer).Elem())
+	et := g.Type().(*types.Pointer).Elem()
+	v := in.zero(et)
+	if g.Pkg != nil && initSkip[g.Pkg.Pkg.Path()] {
+		// the package's initialisers are not executed: the few globals whose initial value matters to
+		// code that runs from source are built here; any other global with a reference type would
+		// read as nil although the real program has a value there, so its use ends the path
+		path := g.Pkg.Pkg.Path()
+		switch {
+		case path == "time" && (g.Name() == "UTC" || g.Name() == "Local"):
+			target := "utcLoc"
+			if g.Name() == "Local" {
+				target = "localLoc"
+			}
+			if tg, ok := g.Pkg.Members[target].(*ssa.Global); ok {
+				v = &Ptr{P: in.globalCell(tg), Stamp: 0, Obj: tg.Name()}
+			}
+		case skippedGlobalZeroOK[path+"."+g.Name()]:
+		default:
+			switch et.Underlying().(type) {
+			case *types.Pointer, *types.Map, *types.Slice, *types.Signature, *types.Interface, *types.Chan:
+				if os.Getenv("VX_GLOBAL_GUARD") != "off" {
+					unsup("read of %s.%s: the package's initialisers are not modelled", path, g.Name())
+				}
+			}
+		}
+	}
 	c := &v
 	in.globals[g] = c
 	return c
 }
+
+// skippedGlobalZeroOK: reference-typed globals of packages whose init is skipped that really are
+// nil when the program starts (or are only touched by code that natives replace).
+var skippedGlobalZeroOK = map[string]bool{}
 
 var initSkip = map[string]bool{
 	"unicode": true, "runtime": true, "os": true, "sync": true, "syscall": true, "reflect": true, "time": true,
